@@ -8,7 +8,7 @@ HERE = os.path.dirname(os.path.dirname(os.path.abspath(__file__)))
 
 BUILT = {
     "C01": dict(
-        text="TLC explores the exponent/scale bookkeeping model of every contraction route and update exhaustively (invariants ValuePreserved, RouteExact); every observation of the real routes on exact Gaussian-integer networks is judged by the TLC trace spec, which recomputes the network's value with LTensor!Denote (the statement itself).",
+        text="TLC explores the exponent/scale bookkeeping model of every contraction route and update exhaustively (invariants ValuePreserved, RouteExact); every observation of the real routes (~50 kinds: full/partial/structured/cumulative contraction, explicit paths, stripped exponents, densification, norm/overlap/trace with explicit output labels, linear operators with chained variants) on exact Gaussian-integer networks, MPS and MPO objects, including a tiny-amplitude family, is judged by the TLC trace spec, which recomputes the network's value with LTensor!Denote (the statement itself).",
         note="trusted: TLC, LTensor.tla (Denote written from the statement), numpy.einsum for densifying updated networks, snapping tolerance 1e-8 (double) / 2e-4 (single); scope: <= 4 tensors, <= 6 labels of size <= 3, exponents -2..2",
         technique="TLA+ model of exponent bookkeeping model-checked with TLC; TLC trace validation with an exact Denote oracle over recorded quimb contraction routes"),
     "C02": dict(
@@ -16,7 +16,7 @@ BUILT = {
         note="trusted: TLC, C02_Defs fresh-scan definitions, the driver's projection of public attributes; assumes a tensor object is held at most once per network and callers keep label sizes consistent",
         technique="TLA+ implementation-shaped state machine model-checked with TLC; replay of TLC behaviours into quimb and TLC trace validation of random API walks"),
     "C04": dict(
-        text="TLC explores the life-cycle of the left_inds isometry claim, gauge balance on bonds and scale bookkeeping exhaustively (ClaimSound, GaugeBalanced); seeded compositions of ~40 representation-changing rewrites (gauging, canonization, simplification passes, untruncated compression, fusing, squeezing, hyper-index resolution) on eight geometry classes of exact Gaussian-integer networks are judged by the TLC trace spec, which compares the network densified after every rewrite with LTensor!Denote of the original and checks the promised forms.",
+        text="TLC explores the life-cycle of the left_inds isometry claim, gauge balance on bonds and scale bookkeeping exhaustively (ClaimSound, GaugeBalanced); seeded compositions of ~50 representation-changing rewrites (gauging with full and partial gauge dictionaries, canonization, simplification passes with explicit and default outputs, untruncated compression, fusing, squeezing, hyper-index resolution) on eleven geometry classes of exact Gaussian-integer networks (hyper outputs on pairs and loops, labels repeated on one tensor, chains of diagonal tensors, all walked through systematically) are judged by the TLC trace spec, which compares the network densified after every rewrite with LTensor!Denote of the original and checks the promised forms; isometrize / unitize are probed for every method on scratch copies.",
         note="trusted: TLC, LTensor.tla, numpy.einsum densification and numpy isometry measurements; hyper-index networks only for rewrites documenting support; scope <= 6 tensors, bond sizes <= 3",
         technique="TLA+ claim/gauge bookkeeping model model-checked with TLC; TLC trace validation with an exact Denote oracle over recorded rewrite sequences"),
     "C16": dict(
